@@ -10,6 +10,7 @@ import (
 func init() { register("C09", rulesC09, nil) }
 
 func rulesC09(c *Ctx) {
+	c.Import("R-C09-11", "the streamable client tells transient failures from fatal ones by errors.Is(err, ErrRejected) / errMalformedEvent with the sentinel as target: asked the other way round every wrapped rejection looks fatal and fails the connection", "C02", "R-C02-13", nil)
 	errIs := c.Std("errors", "", "Is")
 
 	c.Rule("R-C09-1", "the SSE scanner dispatches an event only when it has seen the terminating blank line; end of input never dispatches pending fields; only a clean io.EOF counts as end of input", func() {
